@@ -231,11 +231,15 @@ impl ServerInner {
         match item {
             ServerCommand::Pause(tx) => {
                 self.waker_queue.wake(WakerInterest::Pause);
+                #[cfg(actix_net_verif)]
+                crate::verif::failpoint("server:pause-ack");
                 let _ = tx.send(());
             }
 
             ServerCommand::Resume(tx) => {
                 self.waker_queue.wake(WakerInterest::Resume);
+                #[cfg(actix_net_verif)]
+                crate::verif::failpoint("server:resume-ack");
                 let _ = tx.send(());
             }
 
